@@ -110,9 +110,21 @@ static void cmdline_input(const std::string &line, Rng &r) {
 	case_detail("cmdline \"%s\"", line.c_str());
 	Cell flag_a(sizeof(bool)), flag_b(sizeof(bool)), sv(sizeof(frg::string_view)), sv2(sizeof(frg::string_view)), i8(1), u8(1), i32(4), u64(8), i64(8), u16(2);
 	new (sv.p) frg::string_view(); new (sv2.p) frg::string_view();
-	int table = r.below(4);
+	int table = r.below(5);
 	try {
-		if(table == 0) { // flag-only
+		if(table == 4) { // large option tables (65, 129, 1000 entries; every option has its own exact-size target cell): the number of
+			// options is part of the input too - a scratch copy of the table with a fixed bound would be written past its end
+			static const size_t sizes[] = {65, 129, 1000, 64, 63};
+			size_t n = sizes[r.below(5)];
+			std::vector<std::unique_ptr<Cell>> cells; std::vector<std::string> names; std::vector<frg::option> opts;
+			names.reserve(n);
+			for(size_t i = 0; i < n; i++) { names.push_back(i % 7 == 0 ? "a" : i % 7 == 1 ? "1" : "o" + std::to_string(i)); cells.emplace_back(new Cell(i % 3 == 0 ? sizeof(bool) : i % 3 == 1 ? 4 : sizeof(frg::string_view))); if(i % 3 == 2) new (cells.back()->p) frg::string_view(); }
+			for(size_t i = 0; i < n; i++) opts.push_back(frg::option{frg::string_view(names[i].data(), names[i].size()), i % 3 == 0 ? frg::store_true(*(bool *)cells[i]->p) : i % 3 == 1 ? frg::as_number(*(int32_t *)cells[i]->p) : frg::as_string_view(*(frg::string_view *)cells[i]->p)});
+			std::string extra = line + " o" + std::to_string(n - 1) + "=7 o" + std::to_string(n - 2) + " o" + std::to_string(n - 3) + "=v";
+			GuardedBuf g2(extra.data(), extra.size());
+			frg::parse_arguments(frg::string_view(g2.data(), extra.size()), opts);
+			count("cmdline_large_option_tables");
+		} else if(table == 0) { // flag-only
 			frg::array args = {frg::option{"a", frg::store_true(*(bool *)flag_a.p)}, frg::option{"1", frg::store_false(*(bool *)flag_b.p)}, frg::option{"aa", frg::store_true(*(bool *)flag_b.p)}, frg::option{"", frg::store_true(*(bool *)flag_a.p)}};
 			frg::parse_arguments(v, args);
 		} else if(table == 1) { // valued
